@@ -35,6 +35,7 @@ type CNSRes struct {
 	Stats      Counter
 	Ops        int
 	Overlaps   int // operations that overlapped an operation of another client
+	Rejected   int // concurrent requests whose transaction the journal rejected
 }
 
 type cnsOp struct {
@@ -100,6 +101,13 @@ func oneCNS(seed uint64, res *CNSRes, h, cas int) {
 		s.nextUid = uint64(c+1) * 1000000
 		sess[c] = s
 	}
+	var sab []byte
+	if r := doOp(srv.API, &Op{K: OpMkdir, H: srv.Root, Name: "sab"}); r.Stat == stOK {
+		sab = r.FH
+	} else {
+		viol("crash", "setup MKDIR fails: %d", r.Stat)
+		return
+	}
 	srv.Flush()
 	d.SetPerturb(rng.U64() | 1)
 	mon.Reset(rng.U64()|1, true)
@@ -155,6 +163,25 @@ func oneCNS(seed uint64, res *CNSRes, h, cas int) {
 				mu.Unlock()
 			}
 		}(c)
+	}
+	if h%3 == 1 {
+		// next to them: requests whose transaction the journal rejects as too
+		// large (they fail without effect, but go-journal resets its saved
+		// flush position when it rejects one)
+		wg.Add(1)
+		go func() {
+			defer wg.Done()
+			mon.SetClient(nc + 1)
+			for i := 0; i < nops; i++ {
+				r := doOp(srv.API, &Op{K: OpSymlink, H: sab, Name: fmt.Sprintf("huge%d", i), Target: longName(520*BlockSize+1, 'H')})
+				if r.Stat == stOK {
+					mu.Lock()
+					viol("crash", "SYMLINK with a 520-block target was accepted")
+					mu.Unlock()
+				}
+				res.Rejected++
+			}
+		}()
 	}
 	wg.Wait()
 	srv.WaitIdle()
@@ -391,6 +418,7 @@ func cnsJobRes(r *CNSRes) *JobRes {
 	out.Counters["concurrent_mixed_operations_overlapping_another_client"] = r.Overlaps
 	out.Counters["concurrent_mixed_crash_images"] = r.Images
 	out.Counters["concurrent_mixed_lossy_images"] = r.Lossy
+	out.Counters["concurrent_journal_rejected_requests"] = r.Rejected
 	out.Counters["concurrent_mixed_images_nontrivial"] = r.NonTrivial
 	out.Counters["concurrent_mixed_images_where_real_time_order_excluded_a_combination"] = r.CrossBound
 	for k, v := range r.Stats {
